@@ -29,8 +29,16 @@ def canon(x):
 # states
 
 
+def rand_mask(r):
+    """a glyph's mask: glyph flags in the low three bits (glyph_flag::DEFINED), feature bits above; half of the glyphs
+    carry random feature bits (what set_masks leaves behind for ranged features), often different from their neighbours'"""
+    if r.chance(1, 2):
+        return r.choice([0, 0, 8, 24, 0x100, 3])
+    return (r.next() & 0xFFFFFFF8 if r.chance(1, 2) else r.choice([8, 0x10, 0x20, 0x40, 0x80, 0x100]) << r.below(20)) | r.choice([0, 0, 0, 1, 2, 3, 4, 7])
+
+
 def mk_items(r, cl, base=100):
-    return [(base + i, r.choice([0, 0, 8, 24, 0x100, 3]), c, r.choice([0, 0, 1, 2, 3, 230, 220]), r.choice(VAR2))
+    return [(base + i, rand_mask(r), c, r.choice([0, 0, 1, 2, 3, 230, 220]), r.choice(VAR2))
             for i, c in enumerate(cl)]
 
 
